@@ -13,8 +13,11 @@ import time
 import traceback
 
 ROOT = os.path.dirname(os.path.dirname(os.path.abspath(__file__)))
-EVIDENCE_DIR = os.path.join(ROOT, 'evidence')
-REPLAY_DIR = os.path.join(ROOT, 'replays')
+# HV_OUT_DIR redirects evidence and replay files (used when checks are run against a deliberately broken tree,
+# so that /verif/evidence always describes the tree the registered commands were run on)
+_OUT = os.environ.get('HV_OUT_DIR') or ROOT
+EVIDENCE_DIR = os.path.join(_OUT, 'evidence')
+REPLAY_DIR = os.path.join(_OUT, 'replays')
 FINDINGS_FILE = os.path.join(ROOT, 'known_findings.json')
 
 ASSUMPTIONS = [
